@@ -41,6 +41,8 @@ def oracle(trace, case, end):
     stats = {'submissions': 0, 'after_states': 0, 'cancel_verdicts': 0}
     sym = case['routes'][0]['symbol']
     active = {}            # oid -> submit event
+    cycle_orders = {'sl': [], 'tp': []}     # (oid, |qty|, price) of exit orders submitted during the current position cycle
+    executed = set()
     i = 0
     n = len(trace)
     pending_cancel_check = None
@@ -74,6 +76,8 @@ def oracle(trace, case, end):
                     probs.append(('exit-not-reduce-only', sig, 'order %d submitted via %s is not reduce-only (%s %s at %r)' % (oid, v, typ, side, price)))
                 if pos != 0 and ((pos > 0) != (side == 'sell')):
                     probs.append(('exit-wrong-side', sig, 'order %d via %s is a %s while the position is %r' % (oid, v, side, pos)))
+            if kind in cycle_orders:
+                cycle_orders[kind].append((oid, abs(qty), price))
             rows = latest.get(kind, ([], '', None))[0]
             ok = False
             for (q, p) in rows:
@@ -85,12 +89,16 @@ def oracle(trace, case, end):
         elif k in ('exec', 'cancel') and not ev[3]:
             o = active.pop(ev[1], None)
             if k == 'exec' and o is not None:
+                executed.add(ev[1])
                 q = o[5]
                 if o[7] and abs(q) > abs(pos):
                     q = -pos
                 pos += q
                 if abs(pos) < 1e-12:
                     pos = 0.0
+                    cycle_orders = {'sl': [], 'tp': []}
+                    latest.pop('sl', None)
+                    latest.pop('tp', None)
         elif k == 'after-state':
             stats['after_states'] += 1
             _, _, now, idx, pqty, act, decl = ev
@@ -107,6 +115,16 @@ def oracle(trace, case, end):
                                           % (idx, vname, oid, typ, qty, price, latest.get(kind, ([],))[0])))
                         else:
                             rows.remove(m)
+                    # completeness: every declared row has an order of this position cycle that is active or was filled
+                    act_ids = {a[0] for a in act}
+                    pool = [(oid, q, p) for (oid, q, p) in cycle_orders[kind] if oid in act_ids or oid in executed]
+                    for (rq, rp) in latest.get(kind, ([], '', None))[0]:
+                        m = next((x for x in pool if abs(x[1] - rq) <= 1e-12 * max(1, rq) and x[2] == rp), None)
+                        if m is None:
+                            probs.append(('declared-exit-without-order', {'kind': kind, 'site': site},
+                                          'after step %d: the declared %s row (qty %r, price %r) has neither an active nor an executed order' % (idx, vname, rq, rp)))
+                            break
+                        pool.remove(m)
             else:
                 for (oid, v, typ, side, qty, price, ro) in act:
                     if v in ('stop-loss', 'take-profit') or ro:
@@ -174,6 +192,11 @@ def scenarios():
         # on_reduced_position after a take-profit that goes to market
         for rc in ({'sl': 'breakeven'}, {'sl': 'all', 'sl_d': 0.01, 'tp': 'all', 'tp_d': 0.02}, {'sl': 'all', 'sl_d': 0.0}):
             out.append(('on_reduced %s' % sorted(rc.items()), dict(b, enter=ent, on_open={'sl': [[2, 0.05]], 'tp': [[1, 0.0], [1, 0.05]]}, on_reduced=rc)))
+        # several trades on one route: the same exits declared again after the position was closed and re-opened
+        again = {'when': 'flat', 'legs': [[2, 0.0]]}
+        out.append(('retrade liquidate same exits', dict(b, enter=again, on_open={'sl': [[2, 0.05]], 'tp': [[2, 0.05]]}, update=[{'at': 1, 'liquidate': True}, {'at': 3, 'liquidate': True}])))
+        out.append(('retrade tp-to-market same sl', dict(b, enter=again, on_open={'sl': [[2, 0.05]]}, update=[{'at': 1, 'tp': [[2, 0.0]], 'sl': 'keep'}, {'at': 3, 'tp': [[2, 0.0]], 'sl': 'keep'}])))
+        out.append(('retrade at_entry exits', dict(b, enter=again, at_entry={'sl': [[2, 0.05]], 'tp': [[2, 0.05]]}, update=[{'at': 1, 'liquidate': True}])))
         # liquidate()
         out.append(('liquidate', dict(b, enter=ent, on_open={'sl': [[2, 0.05]], 'tp': [[2, 0.05]]}, update=[{'at': 2, 'liquidate': True}])))
     return out
